@@ -77,7 +77,7 @@ def main():
         res['caught_by'] = caught
         sh('git checkout -- evidence', cwd=ROOT)
         # store
-        sid = '%s-%s' % (prop, n)
+        sid = '%s-%s%s' % (prop, (os.environ.get('SEED_SUFFIX') + '-') if os.environ.get('SEED_SUFFIX') else '', n)
         d = os.path.join(ROOT, 'seeded', sid)
         os.makedirs(d, exist_ok=True)
         shutil.copy(patch, os.path.join(d, 'patch.diff'))
